@@ -191,6 +191,14 @@ class ClientGenerator:
                 tmp_out_dir_for_diff.mkdir(parents=True, exist_ok=True)
                 tmp_core_dir_for_diff.mkdir(parents=True, exist_ok=True)  # Ensure core temp dir always exists
 
+                # Mirror the ancestor package markers the direct path creates, so that post-processing (import
+                # sorting classifies modules by the package structure it finds) treats both trees alike
+                for tmp_pkg_dir in (tmp_out_dir_for_diff, tmp_core_dir_for_diff):
+                    tmp_ancestor = tmp_pkg_dir.parent
+                    while tmp_ancestor != tmp_project_root_for_diff:
+                        (tmp_ancestor / "__init__.py").touch()
+                        tmp_ancestor = tmp_ancestor.parent
+
                 # --- Generate files into the temporary structure ---
                 temp_generated_files = []  # Track files generated in temp dir
 
